@@ -63,8 +63,8 @@ theorem LPB_of_parked (wk : Waker) (w : World) (hnw : ¬ wokenBy wk w) : ∀ (b 
 /-- live parking depends only on the leaves the block references and on the join queues -/
 theorem LPB.frame (wk : Waker) (w w' : World) (hlen : w.leaves.length ≤ w'.leaves.length)
     (hj : ∀ s, wk ∈ (w.getMeta s).joinWakers → wk ∈ (w'.getMeta s).joinWakers) :
-    ∀ (b : Block), (∀ l ∈ refsB b, w'.leaf l = w.leaf l) → LPB wk w b → LPB wk w' b := by
-  have key : ∀ n (b : Block), sizeOf b ≤ n → (∀ l ∈ refsB b, w'.leaf l = w.leaf l) → LPB wk w b → LPB wk w' b := by
+    ∀ (b : Block), (∀ l ∈ refsB b, (w'.leaf l).waker = (w.leaf l).waker) → LPB wk w b → LPB wk w' b := by
+  have key : ∀ n (b : Block), sizeOf b ≤ n → (∀ l ∈ refsB b, (w'.leaf l).waker = (w.leaf l).waker) → LPB wk w b → LPB wk w' b := by
     intro n
     induction n with
     | zero => intro b hb; cases b; simp at hb
@@ -81,12 +81,10 @@ theorem LPB.frame (wk : Waker) (w w' : World) (hlen : w.leaves.length ≤ w'.lea
       | selfwake s => simp [LPP] at hp
       | req x l =>
         simp only [LPP] at hp ⊢
-        rw [hl l (by simp [refsP])]
-        exact ⟨Nat.lt_of_lt_of_le hp.1 hlen, hp.2⟩
+        exact ⟨Nat.lt_of_lt_of_le hp.1 hlen, (hl l (by simp [refsP])).trans hp.2⟩
       | streamWait x l c lim body =>
         simp only [LPP] at hp ⊢
-        rw [hl l (by simp [refsP])]
-        exact ⟨Nat.lt_of_lt_of_le hp.1 hlen, hp.2⟩
+        exact ⟨Nat.lt_of_lt_of_le hp.1 hlen, (hl l (by simp [refsP])).trans hp.2⟩
       | streamBody x l c lim body inner =>
         simp only [LPP] at hp ⊢
         simp only [Pend.streamBody.sizeOf_spec] at hb
@@ -171,7 +169,7 @@ theorem poll_keeps_others_parked (pn) (f : Nat) (wk0 : Waker) (sink : Sink) (b0 
   · intro s hs
     exact (pollBlock_jrgood pn s wk1 0 0 f wk0 sink b0 w r w' h hf).1 hs
   · intro l hl
-    exact (pollBlock_lfgood pn l f wk0 sink b0 w r w' h hf (hlt l hl) (hdis l hl)).1
+    exact congrArg (·.waker) (pollBlock_lfgood pn l f wk0 sink b0 w r w' h hf (hlt l hl) (hdis l hl)).1
 
 end M.Rt
 
